@@ -26,6 +26,7 @@ def stepM (st : MState) (line : String) : MState × List String :=
   | "F" :: rest => ({ st with forest := parseForest rest [] }, [])
   | ["FRAW"] => (st, rawRecords st.forest ++ ["."])
   | ["FCOOKED"] => (st, cookedRecords st.forest ++ ["."])
+  | "ABBR" :: rest => (st, [" ".intercalate ((ZwVerif.Loc.abbrevUnits (rest.filterMap String.toNat?) []).map toString), "."])
   | "SYM" :: rest => (st, symbolRecords rest ++ ["."])
   | ["FVAL"] => (st, valueRecords st.forest ++ ["."])
   | ["FUNITS"] => (st, cookedUnits st.forest ++ ["."])
